@@ -133,8 +133,8 @@ def check(ctx):
     rid = 'R13.4'
     ctx.rule(rid, 'argument order: zip(written args, parameter types) in order; argument tuple = balanced product, first argument leftmost; no reordering call on the path; schema `args ; jet`')
     aa = ctx.anchor(fx, '<ast::Call as ast::AbstractSyntaxTree>::analyze::analyze_arguments')
-    rets = [S(r) for k, p, r in explore(ctx, aa) if k == 'RET' and ret_kind(r) == 'ok']
-    ctx.ob(rid, 'zip-order', len(rets) == 1 and 'zip(iter(parse_args), iter(args_tys))' in rets[0], 'analyze_arguments zips the written arguments with the parameter types front to back', aa.where(), str(rets)[:300])
+    rets = [S(r) for k, p, r in explore(ctx, aa) if k == 'RET' and ret_kind(r) in ('ok', 'other')]
+    ctx.ob(rid, 'zip-order', len(rets) >= 1 and all('zip(iter(parse_args), iter(args_tys))' in r0 for r0 in rets), 'analyze_arguments zips the written arguments with the parameter types front to back', aa.where(), str(rets)[:300])
     tu = ctx.anchor(fx, 'ast::SingleExpression::tuple')
     rets = [S(r) for k, p, r in explore(ctx, tu) if k == 'RET']
     ctx.ob(rid, 'tuple-args', len(rets) == 1 and re.match(r'SingleExpression\{Tuple\{(\w+)\}, tuple\(collect\(cloned\(map\(iter\(\1\), ty\)\)\)\), span\}$', rets[0]) is not None, 'the argument tuple holds the call arguments unchanged', tu.where(), str(rets)[:200])
@@ -143,7 +143,7 @@ def check(ctx):
              'compile::<impl ast::Call>::compile', '<parse::Call as parse::PestParse>::parse', 'jet::source_type', 'jet::tuple']
     for path in chain:
         fn = ctx.anchor(fx, path)
-        hits = [c for bid, c, t in fn.calls() if deny.search(c)]
+        hits = [c for bid, c, t in deep_calls(fx, fn) if deny.search(c)]
         for cl in fx.find('^' + re.escape(path) + r'::\{closure#\d+\}$'):
             hits += [c for bid, c, t in cl.calls() if deny.search(c)]
         ctx.ob(rid, 'no-reorder:' + path, not hits, 'no reordering operation in %s' % path, fn.where(), str(hits))
